@@ -204,12 +204,12 @@ def run_shard(sh):
         if w.state_direct() != 'ESTABLISHED':
             continue
         asn4 = bool(w.fsm.protocol.fourbytesas)
-        kind = rng.choice(['update', 'update', 'update', 'mp', 'withdraw', 'rr', 'bin', 'bad'])
+        kind = rng.choice(['update', 'update', 'update', 'mp', 'mixed', 'withdraw', 'rr', 'bin', 'bad'])
         n0 = len(tr.written)
         others0 = sum(len(t.written) for t in w.transports() if t is not tr)
         rep = dict(kind_of_send=kind, ibgp=ibgp, as4peer=as4peer)
         res['evaluations'] += 1
-        if kind in ('update', 'mp', 'withdraw'):
+        if kind in ('update', 'mp', 'mixed', 'withdraw'):
             attrs = gen.std_attrs(rng, asn4, with_ext=False)    # text -> code translation of extended communities is C17's business
             nlri, wdl = [], []
             if kind == 'update':
@@ -222,6 +222,16 @@ def run_shard(sh):
             elif kind == 'mp':
                 fam = rng.choice(['ipv6', 'vpnv4', 'evpn', 'flowspec'])
                 attrs = {1: 0, 2: [], 14: gen.mp_value(rng, fam, nmax=3)}
+            elif kind == 'mixed':
+                # one request carrying IPv4 prefixes (announced and/or withdrawn) next to an MP_REACH / MP_UNREACH attribute
+                fam = rng.choice(['ipv6', 'vpnv4', 'evpn', 'flowspec'])
+                wdmp = rng.random() < 0.4
+                attrs = {1: 0, 2: [] if ibgp else [[2, [64999]]], 3: '10.0.0.1', (15 if wdmp else 14): gen.mp_value(rng, fam, withdraw=wdmp, nmax=3)}
+                r_ = rng.random()
+                if r_ < 0.7:
+                    nlri = gen.prefix_list4(rng, 4) or ['192.0.2.0/24']
+                if r_ > 0.4:
+                    wdl = gen.prefix_list4(rng, 3) or ['198.51.100.0/24']
             else:
                 attrs = {}
                 wdl = gen.prefix_list4(rng, 5) or ['192.0.2.0/24']
@@ -253,7 +263,7 @@ def run_shard(sh):
                 bad('send-not-faithful', ['send:update', 'ibgp:%s' % ibgp] + (['has-ext-communities'] if 16 in attrs else []),
                     'send/update answered status true; wire has %d new frame(s) %s; Update.construct of the request gives %s' % (
                         len(new), [d.hex()[:120] for d in new], want.hex()[:120] if want else None), rep)
-            elif 14 not in attrs and 16 not in attrs:
+            elif 14 not in attrs and 15 not in attrs and 16 not in attrs:
                 # independent reading of the frame for IPv4 unicast + standard attributes
                 body = new[0][19:]
                 wl = struct.unpack('!H', body[:2])[0]
